@@ -379,7 +379,7 @@ def judge_lmds(run, cases):
         elif "exc" in c.o:
             ctx.stat("lmds:exception")
             # an exception is a documented outcome only for invalid configurations; the generator emits valid ones
-            ctx.fail("lmds:exception:" + c.o["exc"][:40], "Landmark MDS throws on a valid configuration: " + c.o["exc"],
+            ctx.fail("lmds:exception", "Landmark MDS throws on a valid configuration: " + c.o["exc"],
                      case=c.line, detail=io[:600])
     for c, cl, v in zip(chk, clines, verdicts):
         t = fields(v)
@@ -494,7 +494,7 @@ def judge_lisomap(run, cases):
             continue
         if "exc" in o:
             ctx.stat("lisomap:exception")
-            ctx.fail("lisomap:exception:" + o["exc"][:40], "Landmark Isomap throws on a valid configuration: " + o["exc"],
+            ctx.fail("lisomap:exception", "Landmark Isomap throws on a valid configuration: " + o["exc"],
                      case=c.line, detail=io[:600])
             continue
         c.lm = [int(x) for x in o["lm"].split(",")] if o.get("lm", "-") != "-" else []
